@@ -13,12 +13,15 @@ import funsor.interpretations as FI
 import funsor.interpreter as INTERP
 import funsor.optimizer as OPT
 from funsor.adjoint import forward_backward
-from funsor.interpreter import reinterpret
+from funsor.interpreter import reinterpret, recursion_reinterpret, stack_reinterpret
 from funsor.optimizer import apply_optimizer
 from funsor.adjoint import AdjointTape, adjoint_ops  # noqa: F401
 from funsor.interpretations import (DispatchedInterpretation, PrioritizedInterpretation, Memoize,
                                     StatefulInterpretation)
-from funsor.terms import Binary, Funsor, Number, SubstituteInterpretation, Variable, substitute
+from funsor.terms import Binary, Funsor, Number, Subs, SubstituteInterpretation, Unary, Variable, substitute
+from funsor.tensor import Tensor
+import numpy as _np
+from funsor.domains import Bint
 
 STACK = INTERP._STACK
 BASE = tuple(STACK)          # the stack as funsor's import left it
@@ -70,7 +73,7 @@ class MarkS(Funsor):
 
 
 _reflect = FI.reflect.interpret     # direct constructor: does not look at the stack
-SENT = {n: _reflect(Variable, "sentinel_" + n, Real) for n in ("P", "W2", "W3", "Q", "Shift", "Traced", "Other")}
+SENT = {n: _reflect(Variable, "sentinel_" + n, Real) for n in ("P", "W2", "W3", "Q", "Shift", "Traced", "Other", "K")}
 SUBST_VALUE = _reflect(Number, 1.0, "real")
 
 
@@ -93,6 +96,14 @@ W2.register(MarkB, str)(_rule("W2"))
 W3.register(MarkA, str)(_rule("W3"))
 W3.register(MarkB, str)(_rule("W3"))
 W = PrioritizedInterpretation(W1, W2, W3)
+
+# K: a user-defined partial interpretation with rules for the LEAF classes (ground constants): every Number and every
+# Tensor (with or without named inputs) built or re-built while K is the innermost context must go through it.
+# No stock interpretation is keyed on Number/Tensor, so only K observes whether leaves are interpreted at all.
+# K is used in family J only (a Number rule also sees the results of eager arithmetic, so `num` probes are kept out).
+K = DispatchedInterpretation("K")
+K.register(Number, object, object)(_rule("K"))
+K.register(Tensor, object, object, object)(_rule("K"))
 
 class QInterp(StatefulInterpretation):
     """a user-defined StatefulInterpretation (partial): instances are built by ("mk", name, "Q")"""
@@ -144,13 +155,18 @@ def _other_rule(state, op, lhs, rhs):
 HIER = {"Shift": Shift, "Traced": Traced, "Other": Other}
 SHIFT0, TRACED0, OTHER0 = Shift(), Traced(), Other()
 
-USER_LEAVES = ["P", "W1", "W2", "W3", "Q", "Shift", "Traced", "Other"]
+USER_LEAVES = ["P", "W1", "W2", "W3", "Q", "Shift", "Traced", "Other", "K"]
 USER_CHAINS = [("W", ["W1", "W2", "W3"])]
 USER_RULES = [("P", ["a", "bin"]), ("W2", ["b"]), ("W3", ["a", "b"]), ("Q", ["b"]),
-              ("Shift", ["a"]), ("Traced", ["b"]), ("Other", ["bin"])]      # rules_of class: its own table only
-USER_OBJ = {"P": P, "W1": W1, "W2": W2, "W3": W3, "W": W, "Shift": SHIFT0, "Traced": TRACED0, "Other": OTHER0}
+              ("Shift", ["a"]), ("Traced", ["b"]), ("Other", ["bin"]),      # rules_of class: its own table only
+              ("K", ["n", "t", "tn"])]
+USER_OBJ = {"P": P, "W1": W1, "W2": W2, "W3": W3, "W": W, "Shift": SHIFT0, "Traced": TRACED0, "Other": OTHER0,
+            "K": K}
 PROBES = ["num", "a", "b", "bin"]
-PROBE_CLASS = {"num": Binary, "a": MarkA, "b": MarkB, "bin": Binary, "S": MarkS}
+# leaf probes (family J): n = Number, t = Tensor without inputs (a ground constant), tn = Tensor with a named input
+LEAF_PROBES = ["n", "t", "tn"]
+PROBE_CLASS = {"num": Binary, "a": MarkA, "b": MarkB, "bin": Binary, "S": MarkS, "n": Number, "t": Tensor, "tn": Tensor}
+_ARRAYS = {}        # (kind, token) -> the ndarray (one object per term: Memoize keys arrays by identity)
 OBSERVABLE = set(USER_LEAVES) | {"subst"}
 
 _counter = itertools.count(1)
@@ -169,6 +185,14 @@ def probe_args(k, n):
         return Binary, (ops.pow, _reflect(MarkC, "u%d" % n), _reflect(MarkC, "v%d" % n))
     if k == "S":
         return MarkS, ("s%d" % n,)
+    if k == "n":
+        return Number, (float(n) + 0.25, "real")
+    if k == "t":
+        a = _ARRAYS.setdefault((k, n), _np.array(float(n) + 0.75))
+        return Tensor, (a, (), "real")
+    if k == "tn":
+        a = _ARRAYS.setdefault((k, n), _np.array([float(n), float(n) + 1.5]))
+        return Tensor, (a, (("i", Bint[2]),), "real")
     raise ValueError(k)
 
 
@@ -330,7 +354,8 @@ class RealRun:
             self.probe(p[1], p[2], p[3])
         elif t in ("applyopt", "reinterp"):
             # library entry points that push interpretations internally, called HERE on a lazy term
-            self.probe(p[1], p[2], p[3], via=apply_optimizer if t == "applyopt" else reinterpret)
+            # ("reinterp", k, armed, tok[, "s" | "r"]): the dispatching front end, or one of its two implementations
+            self.probe(p[1], p[2], p[3], via=apply_optimizer if t == "applyopt" else REINTERP[p[4] if len(p) > 4 else ""])
         elif t == "fb":
             self.probe(p[1], False, p[2],
                        via=lambda x: forward_backward(ops.logaddexp, ops.add, x)[0])
@@ -488,6 +513,127 @@ class RealRun:
             self.record("S", r, raised)
 
 
+
+
+# --------------------------------------------------------------------------------------
+# family J2: compound terms with constant leaves, re-built by the reinterpreters inside nested contexts;
+# oracle = the textbook bottom-up rebuild through the constructors, in the same contexts
+# --------------------------------------------------------------------------------------
+
+REINTERP = {"": reinterpret, "s": stack_reinterpret, "r": recursion_reinterpret}
+REBUILDERS = OrderedDict([
+    ("reinterpret", reinterpret), ("recursion_reinterpret", recursion_reinterpret),
+    ("stack_reinterpret", stack_reinterpret),
+    ("forward_backward", lambda x: _fb(x))])
+
+
+def _fb(x):
+    with _np.errstate(all="ignore"):
+        return forward_backward(ops.logaddexp, ops.add, x)[0]
+
+
+def _leaf_trees():
+    r = _reflect
+    x = r(Variable, "x", Real)
+    n2, n3 = r(Number, 2.0, "real"), r(Number, 3.0, "real")
+    t2 = r(*((Tensor,) + probe_args("t", 2)[1]))
+    t3 = r(*((Tensor,) + probe_args("t", 3)[1]))
+    tn = r(*((Tensor,) + probe_args("tn", 2)[1]))
+    i5 = r(Number, 1, 2)        # a bounded-integer constant
+    a1 = r(MarkA, "a1")
+    B = lambda op, a, b: r(Binary, op, a, b)
+    return OrderedDict([
+        ("x*2-3", B(ops.sub, B(ops.mul, x, n2), n3)),
+        ("x*T2-T3", B(ops.sub, B(ops.mul, x, t2), t3)),
+        ("2+2", B(ops.add, n2, n2)),
+        ("(Ti*2)+T2", B(ops.add, B(ops.mul, tn, n2), t2)),
+        ("-3", r(Unary, ops.neg, n3)),
+        ("A+2", B(ops.add, a1, n2)),
+        ("Ti[1]", r(Subs, tn, (("i", i5),))),
+        ("x+(x+3)", B(ops.add, x, B(ops.add, x, n3))),
+    ])
+
+
+LEAF_TREES = _leaf_trees()
+
+
+def brute_force(x):
+    """Textbook reinterpretation: rebuild bottom-up through the constructors (each node is *built* in the
+    current context, so it is interpreted by the innermost one)."""
+    if not isinstance(x, Funsor):
+        if isinstance(x, tuple):
+            return tuple(brute_force(c) for c in x)
+        return x
+    return type(x)(*(brute_force(c) for c in x._ast_values))
+
+
+def skey(x):
+    """structural key of a result (eager arithmetic makes fresh arrays, so identity is too strong)"""
+    if isinstance(x, Funsor):
+        return (type(x).__name__,) + tuple(skey(c) for c in x._ast_values)
+    if isinstance(x, (tuple, frozenset)):
+        return (type(x).__name__,) + tuple(sorted((skey(c) for c in x), key=repr) if isinstance(x, frozenset)
+                                           else (skey(c) for c in x))
+    if isinstance(x, _np.ndarray):
+        return ("ndarray", str(x.dtype), x.shape, repr(x.tolist()))
+    return repr(x)
+
+
+def leaf_tree_case(chain, tree, how):
+    """Enter `chain` (outermost first), rebuild the tree by `how` and by hand.
+    -> (status, detail): status in ok | refused | declined | VIOLATION"""
+    from contextlib import ExitStack
+    if not same(tuple(STACK), BASE):
+        STACK[:] = list(BASE)
+    run = RealRun({})
+    term = LEAF_TREES[tree]
+    fn = REBUILDERS[how]
+    chain = list(chain) + (["tape"] if how == "forward_backward" else [])
+    try:
+        try:
+            with ExitStack() as es:
+                for c in chain[:len(chain) - (how == "forward_backward")]:
+                    es.enter_context(run.make_ctx(c))
+                before = tuple(STACK)
+                del EVENTS[:]
+                try:
+                    got = fn(term)
+                except CATCHABLE:
+                    raise
+                except Exception as e:
+                    got = e
+                ev_got = {(n, CANON.stack(st[:len(before)])) for n, st in EVENTS if n == "K"}
+                after = tuple(STACK)
+                if not same(before, after):
+                    return "VIOLATION", "stack not restored by %s: [%s] -> [%s]" % (how, CANON.stack(before), CANON.stack(after))
+                del EVENTS[:]
+                if how == "forward_backward":
+                    # forward_backward rebuilds the term inside its own AdjointTape block
+                    with AdjointTape():
+                        want = brute_force(term)
+                else:
+                    want = brute_force(term)
+                ev_want = {(n, CANON.stack(st[:len(before)])) for n, st in EVENTS if n == "K"}
+                del EVENTS[:]
+                if isinstance(got, Exception):
+                    return "declined", repr(got)[:100]
+                if got is not want and skey(got) != skey(want):
+                    return "VIOLATION", "%s gave %r, rebuilding node by node in the same contexts gives %r" % (how, got, want)
+                memo = any(c.startswith("memo") for c in chain)
+                if not memo and how != "forward_backward" and ev_got != ev_want:
+                    return "VIOLATION", "K's rule fired at %r, by hand at %r" % (sorted(ev_got), sorted(ev_want))
+                return "ok", ""
+        except CATCHABLE as e:
+            return "refused", type(e).__name__
+    finally:
+        del EVENTS[:]
+        STACK[:] = list(BASE)
+
+
+def leaf_tree_replay(chain, tree, how):
+    st, detail = leaf_tree_case(chain, tree, how)
+    print(st, detail)
+    return st == "VIOLATION"
 
 
 def replay(prog, inv, expected):
